@@ -315,15 +315,31 @@ fn case_write(rng: &mut Rng, replay: &str) -> (Verdict, u64) {
 fn case_seek(rng: &mut Rng, replay: &str) -> (Verdict, u64) {
     let data: Vec<u8> = (0..rng.range(0, 200)).map(|i| i as u8).collect();
     let pb = bar(Some(data.len() as u64), ProgressFinish::AndLeave);
+    // (the stream may already be somewhere in the middle when it is wrapped)
+    let start = if rng.chance(1, 3) { rng.range(0, data.len() as u64) } else { 0 };
     let mut bare = io::Cursor::new(data.clone());
-    let mut wrapped = pb.wrap_read(io::Cursor::new(data.clone()));
+    bare.set_position(start);
+    let mut inner = io::Cursor::new(data.clone());
+    inner.set_position(start);
+    let mut wrapped = pb.wrap_read(inner);
     let mut calls = 0;
     let mut log: Vec<String> = Vec::new();
     let w = |log: &Vec<String>| J::obj().with("adaptor", "Seek").with("len", data.len()).with("calls", J::from(log.clone()));
     for _ in 0..rng.range(1, 25) {
         let before = pb.position();
-        let kind = rng.below(6);
+        let kind = rng.below(7);
         let off = rng.range(0, 250) as i64 - 30;
+        if kind == 6 {
+            // the bar is moved from outside the adaptor (reused bar, manual correction): later transfers count
+            // on top of it, and any seek - including one that does not move the stream - re-synchronises it
+            match rng.below(3) {
+                0 => pb.set_position(rng.range(0, 300)),
+                1 => pb.reset(),
+                _ => pb.inc(rng.range(1, 9)),
+            }
+            log.push("bar moved from outside".into());
+            continue;
+        }
         let (sa, sb, expect): (String, String, Option<u64>) = match kind {
             0 => {
                 let (ra, rb) = (bare.seek(SeekFrom::Start(off.max(0) as u64)), wrapped.seek(SeekFrom::Start(off.max(0) as u64)));
@@ -336,6 +352,8 @@ fn case_seek(rng: &mut Rng, replay: &str) -> (Verdict, u64) {
                 (res_sig(&ra), res_sig(&rb), e.or(Some(before)))
             }
             2 => {
+                // (a quarter of the relative seeks do not move the stream at all)
+                let off = if rng.chance(1, 4) { 0 } else { off };
                 let (ra, rb) = (bare.seek(SeekFrom::Current(off)), wrapped.seek(SeekFrom::Current(off)));
                 let e = rb.as_ref().ok().copied();
                 (res_sig(&ra), res_sig(&rb), e.or(Some(before)))
@@ -345,6 +363,7 @@ fn case_seek(rng: &mut Rng, replay: &str) -> (Verdict, u64) {
                 (res_sig(&ra), res_sig(&rb), Some(0))
             }
             4 => {
+                // (stream_position() is passed through on purpose: it is a query, not a seek, and leaves the bar alone)
                 let (ra, rb) = (bare.stream_position(), wrapped.stream_position());
                 (res_sig(&ra), res_sig(&rb), Some(before))
             }
@@ -998,7 +1017,7 @@ fn main() {
         let n = if thorough { 3_000_000 } else { 60_000 };
         run_parallel(n, workers(), |i| run_case(seed, i))
     };
-    let rule = "families in rotation: Read (read/read_vectored/read_exact/read_to_end on a scripted source with short reads, Interrupted, hard errors, zero-length transfers, EOF), BufRead (fill_buf / partial consume / read_line / read interleaved), Write (write/write_vectored/write_all/flush on a scripted sink), Seek (all three modes, rewind, stream_position on a Cursor), Iterator (next/next_back/len/size_hint, every ProgressFinish, optionally a second pass over the reset bar), tokio AsyncRead/AsyncBufRead/AsyncWrite/AsyncSeek and futures Stream polled by hand with scripted Pending, rayon pipelines (for_each, map-collect, zip, enumerate, rev, chunks, with_min_len, with_max_len, unindexed filter) on pools of 1-16 threads with 0-20000 items, and short-circuiting consumers (find_any/first/last, any, all, position_any, try_for_each, while_some, take_any, try_reduce; indexed and unindexed source; position compared with an upstream counting stage); every call is mirrored on a bare twin; distinct = (seed, index)";
+    let rule = "families in rotation: Read (read/read_vectored/read_exact/read_to_end on a scripted source with short reads, Interrupted, hard errors, zero-length transfers, EOF), BufRead (fill_buf / partial consume / read_line / read interleaved), Write (write/write_vectored/write_all/flush on a scripted sink), Seek (all three modes, rewind, stream_position on a Cursor that may start in the middle, with the bar occasionally moved from outside), Iterator (next/next_back/len/size_hint, every ProgressFinish, optionally a second pass over the reset bar), tokio AsyncRead/AsyncBufRead/AsyncWrite/AsyncSeek and futures Stream polled by hand with scripted Pending, rayon pipelines (for_each, map-collect, zip, enumerate, rev, chunks, with_min_len, with_max_len, unindexed filter) on pools of 1-16 threads with 0-20000 items, and short-circuiting consumers (find_any/first/last, any, all, position_any, try_for_each, while_some, take_any, try_reduce; indexed and unindexed source; position compared with an upstream counting stage); every call is mirrored on a bare twin; distinct = (seed, index)";
     let mut j = report.to_json("C17", rule, false);
     j.set("wall_s", t0.elapsed().as_secs_f64());
     j.set("seed", seed);
